@@ -9,6 +9,7 @@ package main
 import (
 	"fmt"
 	"go/types"
+	"strconv"
 	"strings"
 
 	"golang.org/x/tools/go/ssa"
@@ -124,8 +125,11 @@ type notHandledT struct{}
 var notHandled = notHandledT{}
 
 func (m *Machine) wsRegex() *Term {
+	return m.charsRegex([]string{"\t", "\n", "\v", "\f", "\r", " "})
+}
+
+func (m *Machine) charsRegex(alts []string) *Term {
 	tf := m.tf
-	alts := []string{"\t", "\n", "\v", "\f", "\r", " "}
 	r := tf.App(WRegLan, "str.to_re", tf.StrLit(alts[0]))
 	for _, a := range alts[1:] {
 		r = tf.App(WRegLan, "re.union", r, tf.App(WRegLan, "str.to_re", tf.StrLit(a)))
@@ -138,12 +142,26 @@ func (m *Machine) smtTrimSpace(fr *Frame, s *Term) *Term {
 	if s.Op == OpStrLit {
 		return m.tf.StrLit(strings.TrimSpace(s.Name))
 	}
-	if r, ok := m.trimCache[s]; ok {
+	return m.smtTrimSet(fr, s, "", m.wsRegex())
+}
+
+// smtTrimSet: strings.Trim(s, cutset) for a cutset of single ASCII characters (key: the cutset; "" = TrimSpace's set).
+func (m *Machine) smtTrimSet(fr *Frame, s *Term, key string, ws *Term) *Term {
+	if m.trimCacheSet == nil {
+		m.trimCacheSet = map[string]map[*Term]*Term{}
+	}
+	if m.trimCacheSet[key] == nil {
+		m.trimCacheSet[key] = map[*Term]*Term{}
+	}
+	if key != "" {
+		if r, ok := m.trimCacheSet[key][s]; ok {
+			return r
+		}
+	} else if r, ok := m.trimCache[s]; ok {
 		return r
 	}
 	tf := m.tf
 	l, r, t := m.freshStr("trimL"), m.freshStr("trim"), m.freshStr("trimR")
-	ws := m.wsRegex()
 	wsStar := tf.App(WRegLan, "re.*", ws)
 	m.addPC(tf.App(0, "=", s, tf.App(WString, "str.++", l, r, t)))
 	m.addPC(tf.App(0, "str.in_re", l, wsStar))
@@ -153,8 +171,13 @@ func (m *Machine) smtTrimSpace(fr *Frame, s *Term) *Term {
 	last := tf.App(WInt, "-", tf.App(WInt, "str.len", r), tf.Const(WInt, 1))
 	m.addPC(tf.Not(tf.App(0, "str.in_re", tf.App(WString, "str.at", r, zero), ws)))
 	m.addPC(tf.Not(tf.App(0, "str.in_re", tf.App(WString, "str.at", r, last), ws)))
-	m.trimCache[s] = r
-	m.noteStub("strings.TrimSpace summarised in the theory of strings (ASCII white space)")
+	if key != "" {
+		m.trimCacheSet[key][s] = r
+		m.noteStub("strings.Trim(s, " + strconv.Quote(key) + ") summarised in the theory of strings")
+	} else {
+		m.trimCache[s] = r
+		m.noteStub("strings.TrimSpace summarised in the theory of strings (ASCII white space)")
+	}
 	return r
 }
 
@@ -299,6 +322,24 @@ func addStringIntrinsics(t map[string]Intrinsic) {
 	})
 	t["strings.TrimSpace"] = smtOnly(func(m *Machine, fr *Frame, fn *ssa.Function, a []Value) Value {
 		return m.mkSmt(m.smtTrimSpace(fr, m.strTerm(a[0])))
+	})
+	t["strings.Trim"] = smtOnly(func(m *Machine, fr *Frame, fn *ssa.Function, a []Value) Value {
+		cut, ok := a[1].(string)
+		if !ok || cut == "" {
+			m.unsupported("strings.Trim with a symbolic or empty cutset")
+		}
+		var alts []string
+		for i := 0; i < len(cut); i++ {
+			if cut[i] >= 0x80 {
+				m.unsupported("strings.Trim with a non-ASCII cutset")
+			}
+			alts = append(alts, string(cut[i]))
+		}
+		x := m.strTerm(a[0])
+		if x.Op == OpStrLit {
+			return m.mkSmt(m.tf.StrLit(strings.Trim(x.Name, cut)))
+		}
+		return m.mkSmt(m.smtTrimSet(fr, x, cut, m.charsRegex(alts)))
 	})
 	t["strings.Split"] = smtOnly(func(m *Machine, fr *Frame, fn *ssa.Function, a []Value) Value {
 		sep, ok := a[1].(string)
